@@ -7,6 +7,7 @@ use hcommon::{Report, read_ndjson};
 use serde_json::{Value, json};
 
 mod crash;
+mod race;
 mod space;
 mod trace;
 mod verify;
@@ -25,6 +26,7 @@ fn main() {
         "trace" => rt.block_on(trace_cmd(&mut rep, &args[2], &args[3])),
         "timing" => rt.block_on(timing_cmd(&mut rep, &args[2])),
         "crash" => rt.block_on(crash::crash_cmd(&mut rep, &args[2])),
+        "race" => rt.block_on(race::race_cmd(&mut rep, &args[2])),
         "space" => rt.block_on(space::space_cmd(&mut rep, &args[2])),
         other => panic!("unknown subcommand {other}"),
     }
